@@ -339,17 +339,45 @@ def r4(ctx, cfg):
     # data: starts as the response's own data and is replaced by every sub-response's data that is present (the last one
     # wins).  Form-agnostic: `try_fold(data, |data, m| .. Ok(sub.data.or(data)))` or `if sub.data.is_some() { data = sub.data }`
     # in a loop.  Read from the ways the returned `data` gets its value.
-    aggs = [(bid, i, st) for bid, i, st in f.stmts() if st["k"] == "assign" and st.get("rv", {}).get("k") == "aggregate" and st["rv"].get("adt") == "executor::AppResponse"]
-    ctx.ob(R, key, "one-returned-AppResponse", len(aggs) == 1, "expected one AppResponse built in process_response, found %d" % len(aggs), fn=f, sample="1")
-    if len(aggs) != 1:
+    # the response that is returned: built as `AppResponse { events, data }` or the argument itself, updated in place
+    rets = []
+    for bid, i, st in f.stmts():
+        if st["k"] == "assign" and st["dst"]["l"] == 0 and not st["dst"]["p"] and st["rv"].get("k") == "aggregate" and st["rv"].get("variant") == "Ok" and st["rv"].get("adt") == "std::result::Result":
+            rets.append((bid, i, st))
+    ctx.ob(R, key, "one-returned-AppResponse", len(rets) == 1, "expected one Ok(..) return in process_response, found %d" % len(rets), fn=f, sample="1")
+    if len(rets) != 1:
         return
-    bid, i, st = aggs[0]
-    o = P.rvalue(f, st["rv"], (bid, i))
-    dd = dict(o[2])
-    e_ok = contains(dd["events"], lambda x: x[0] == "field" and x[2] == "events" and is_param(x[1], "response"))
-    dop = st["rv"]["ops"][st["rv"]["fields"].index("data")]
-    dl = q.local_of_operand(dop)
-    cases = q.value_cases(P, f, dl) if dl is not None else []
+    bid, i, st = rets[0]
+    pay = P.operand(f, st["rv"]["ops"][0], (bid, i))
+    o = pay
+    while o[0] == "vp":
+        o = o[2]
+    cases = []
+    if o[0] == "agg" and o[1].startswith("executor::AppResponse"):
+        dd = dict(o[2])
+        e_ok = contains(dd["events"], lambda x: x[0] == "field" and x[2] == "events" and is_param(x[1], "response"))
+        lx = q.local_of_operand(st["rv"]["ops"][0])
+        agg_sites = [(vv, cc, ss) for vv, cc, ss in (q.value_cases(P, f, lx) if lx is not None else [])]
+        dl = None
+        for vv, cc, ss in agg_sites:
+            if ss is not None and ss[1] != "t":
+                st2 = f.blocks[ss[0]]["stmts"][ss[1]]
+                if st2["rv"].get("k") == "aggregate" and st2["rv"].get("adt") == "executor::AppResponse":
+                    dl = q.local_of_operand(st2["rv"]["ops"][st2["rv"]["fields"].index("data")])
+        cases = q.value_cases(P, f, dl) if dl is not None else []
+    else:
+        base = o
+        while base[0] == "upd":
+            base = base[1]
+            while base[0] == "vp":
+                base = base[2]
+        e_ok = is_param(base, "response")
+        if e_ok:
+            cases = [(("field", base, "data"), [], None)]
+            for b2, i2, st2 in f.stmts():
+                if st2["k"] == "assign" and st2["dst"]["p"] and st2["dst"]["p"][-1]["k"] == "field" and st2["dst"]["p"][-1]["name"] == "data" and \
+                        len([e for e in st2["dst"]["p"] if e["k"] == "field"]) == 1 and is_param(P.local(f, st2["dst"]["l"], (b2, i2)), "response"):
+                    cases.append((P.rvalue(f, st2["rv"], (b2, i2)), q.dominating_conditions(P, f, b2), (b2, i2)))
     kinds = []
     for val, conds, dsite in cases:
         for v in alts(peel(val)):
@@ -378,7 +406,7 @@ def r4(ctx, cfg):
     ctx.ob(R, key, "last-data-wins", ok, "the returned data is built from %s; expected the response's own data, replaced by each present sub-response data" % sorted(set(kinds)), fn=f,
            sample=str(sorted(set(kinds))))
     ctx.ob(R, key, "fold-starts-from-own-data", "initial" in kinds, "the returned data does not start from response.data: %s" % sorted(set(kinds)), fn=f, sample="response.data")
-    ctx.ob(R, key, "returns-collected-events-and-folded-data", e_ok, "returned AppResponse is %s" % fmt(o)[:200], fn=f, line=st["line"], sample="AppResponse{events, data: fold}")
+    ctx.ob(R, key, "returns-collected-events-and-folded-data", e_ok, "returned AppResponse is %s" % fmt(pay)[:200], fn=f, line=st["line"], sample="AppResponse{events, data: fold}")
 
 
 def r5(ctx, cfg):
@@ -440,6 +468,17 @@ def _data_writes(P, f, is_base, needle):
     return out
 
 
+def _rebuilt_with(P, f, b2, i2, st, is_base, needle, call_site):
+    """statement builds `AppResponse { events: base.events, data: needle(base.data) }` with the needle call at call_site"""
+    rv = st.get("rv", {})
+    if not (st["k"] == "assign" and rv.get("k") == "aggregate" and rv.get("adt") == "executor::AppResponse"):
+        return False
+    o = P.rvalue(f, rv, (b2, i2))
+    dd = dict(o[2])
+    ev, dv = peel(dd.get("events", ("?",))), peel(dd.get("data", ("?",)))
+    return ev[0] == "field" and ev[2] == "events" and is_base(ev[1]) and dv[0] == "call" and dv[1] == needle and dv[4] == call_site
+
+
 def r6(ctx, cfg):
     F, P = cfg.facts, cfg.prov
     R = "C04.R6"
@@ -464,7 +503,7 @@ def r6(ctx, cfg):
             ok = any(x[0] == "field" and x[2] == "data" and is_ok_pr(x[1]) for x in alts(a))
             ctx.ob(R, key, "encode-wraps-processed-data@%d" % t["line"], ok, "encode_response_data receives %s" % fmt(a)[:120], fn=f,
                    line=t["line"], sample="encode_response_data(ok(process_response(..)).data)")
-            # its result is stored into .data of the same response
+            # its result becomes the data of the same response: `x.data = encode(x.data)` or `AppResponse { events, data: encode(data) }`
             dst = t["dst"]
             ok = bool(dst["p"]) and dst["p"][-1].get("name") == "data" and is_ok_pr(P.local(f, dst["l"], (bid, "t")))
             if not ok:
@@ -473,16 +512,32 @@ def r6(ctx, cfg):
                          and is_ok_pr(P.local(f, st["dst"]["l"], (b2, i2)))
                          and contains(P.rvalue(f, st["rv"], (b2, i2)), lambda x: x[0] == "call" and x[1] == "wasm::encode_response_data")
                          for b2, i2, st in f.stmts())
+            if not ok:
+                ok = any(_rebuilt_with(P, f, b2, i2, st, is_ok_pr, "wasm::encode_response_data", (f.key, bid)) for b2, i2, st in f.stmts())
             ctx.ob(R, key, "encoded-data-stored-back@%d" % t["line"], ok, "result of encode_response_data is not stored into the response's data",
                    fn=f, line=t["line"], sample="x.data = encode_response_data(x.data)")
         # every Ok(..) returned by execute_wasm whose payload is a processed response had its data rewritten
         n = 0
-        for bid, i, st in f.stmts():
-            if st["k"] == "assign" and st["dst"]["l"] == 0 and not st["dst"]["p"]:
-                o = peel(P.rvalue(f, st["rv"], (bid, i)))
+        for val0, conds0, site0 in q.value_cases(P, f, 0):
+            bid, i = site0
+            if i == "t":
+                continue
+            st = f.blocks[bid]["stmts"][i]
+            if True:
+                o = peel(val0)
                 if o[0] == "agg" and o[1].endswith("Result::Ok"):
                     pay = peel(o[2][0][1])
-                    if is_ok_pr(pay):
+                    if pay[0] == "agg" and pay[1].startswith("executor::AppResponse"):
+                        dd = dict(pay[2])
+                        ev, dv = peel(dd.get("events", ("?",))), peel(dd.get("data", ("?",)))
+                        if ev[0] == "field" and ev[2] == "events" and is_ok_pr(ev[1]):
+                            n += 1
+                            ok = dv[0] == "call" and dv[1] == "wasm::encode_response_data" and peel(dv[2][0])[0] == "field" and peel(dv[2][0])[2] == "data" and \
+                                same_origin(peel(dv[2][0])[1], ev[1])
+                            ctx.ob(R, key, "returned-response-has-wrapped-data@%d" % st["line"], ok,
+                                   "Ok(..) returns a processed response whose data is not exactly wrapped once: %s" % fmt(pay)[:160], fn=f,
+                                   line=st["line"], sample="Ok(AppResponse{events, data: encode_response_data(data)})")
+                    elif is_ok_pr(pay):
                         n += 1
                         ok = pay[0] == "upd" and any(p == ("data",) and contains(v, lambda x: x[0] == "call" and x[1] == "wasm::encode_response_data")
                                                      for p, v in pay[2]) and \
@@ -529,11 +584,19 @@ def r6(ctx, cfg):
                 if o[0] == "agg" and o[1].endswith("Result::Ok"):
                     pay = peel(o[2][0][1])
                     n += 1
-                    ok = pay[0] == "upd" and is_ok_pr(pay) and all(p == ("data",) for p, v in pay[2]) and any(
-                        peel(v)[0] == "agg" and peel(v)[1].endswith("Option::Some") and
-                        contains(v, lambda x: x[0] == "call" and x[1] == "wasm::instantiate_response") for p, v in pay[2])
-                    ws = _data_writes(P, f, is_ok_pr, "wasm::instantiate_response")
-                    ok = ok and any(cfg_of(f).site_dominates(w, (bid, i)) for w in ws)
+                    if pay[0] == "agg" and pay[1].startswith("executor::AppResponse"):
+                        # rebuilt from its parts: the processed response's events, and Some(encoding) as data
+                        dd = dict(pay[2])
+                        ev = peel(dd.get("events", ("?",)))
+                        dv = peel(dd.get("data", ("?",)))
+                        ok = ev[0] == "field" and ev[2] == "events" and is_ok_pr(ev[1]) and dv[0] == "agg" and dv[1].endswith("Option::Some") and \
+                            contains(dv, lambda x: x[0] == "call" and x[1] == "wasm::instantiate_response")
+                    else:
+                        ok = pay[0] == "upd" and is_ok_pr(pay) and all(p == ("data",) for p, v in pay[2]) and any(
+                            peel(v)[0] == "agg" and peel(v)[1].endswith("Option::Some") and
+                            contains(v, lambda x: x[0] == "call" and x[1] == "wasm::instantiate_response") for p, v in pay[2])
+                        ws = _data_writes(P, f, is_ok_pr, "wasm::instantiate_response")
+                        ok = ok and any(cfg_of(f).site_dominates(w, (bid, i)) for w in ws)
                     ctx.ob(R, key, "instantiate-always-returns-Some(encoding)", ok,
                            "instantiate returns %s" % fmt(pay)[:160], fn=f, line=st["line"],
                            sample="Ok(res with data: Some(instantiate_response(..)))")
@@ -577,8 +640,9 @@ def r7(ctx, cfg):
         # the amount text is derived from the message's amount and nothing else (the formatting helper coins_to_string is
         # always spliced; the rendering itself - "<amount><denom>" joined by "," - is a byte-level fact that is not decided)
         from vlib.prov import leaves as _leaves
-        lv = _leaves(am)
-        ok = ok and msgf(am, "amount") and not any(x[0] == "param" and x[2] != "msg" for x in lv)
+        am_full = attrs[2][1]       # unpeeled: a String assembled by push_str keeps its inputs as recorded mutations
+        lv = _leaves(am_full)
+        ok = ok and msgf(am_full, "amount") and not any(x[0] == "param" and x[2] != "msg" for x in lv)
         ctx.ob(R, key, "transfer(recipient,sender,amount)", ok,
                "transfer event is %s %s" % (fmt(lit), [(fmt(k), fmt(v)[:50]) for k, v in attrs]), fn=f, line=t["line"],
                sample="Event::new('transfer') recipient<-to_address sender<-sender amount<-coins_to_string(amount)")
